@@ -83,7 +83,8 @@ def minimize(
     hms_tree.run()
     return OptimizeResult(
         x=hms_tree.best_individual.genome,
-        nfev=hms_tree.n_evaluations,
+        # Once the cutoff refuses evaluations the demes' counters run ahead of the real number of calls.
+        nfev=wrapped_function_problem.n_evaluations if maxfun else hms_tree.n_evaluations,
         fun=hms_tree.best_individual.fitness,
         nit=hms_tree.metaepoch_count,
     )
